@@ -30,6 +30,11 @@ MUTATIONS = {
         ('tls', 'tonic/src/transport/server/conn.rs', r'let certs = session\s*\.peer_certificates\(\)\s*\.map\(\|certs\| certs\.to_owned\(\)\.into\(\)\);', 'let certs = None; let _ = session;', 'the handler never sees the peer certificates'),
     ],
     'C20': [
+        ('richbuild', 'tonic-types/src/richer_error/error_details/mod.rs', r'request_info: Some\(RequestInfo::new\(request_id, serving_data\)\),', 'request_info: Some(RequestInfo::new(serving_data, request_id)),', 'with_request_info swaps the two texts'),
+        ('richbuild', 'tonic-types/src/richer_error/std_messages/bad_request.rs', r'self\.field_violations\.append\(&mut vec!\[FieldViolation \{', 'self.field_violations = (vec![FieldViolation {', 'adding a violation forgets the earlier ones'),
+        ('richbuild', 'tonic-types/src/richer_error/error_details/mod.rs', r'return !help\.links\.is_empty\(\);', 'return help.links.is_empty();', 'has_help_links answers the opposite'),
+        ('richbuild', 'tonic-types/src/richer_error/error_details/mod.rs', r'self\.debug_info = Some\(DebugInfo::new\(stack_entries, detail\)\);\n        self', 'self.debug_info = Some(DebugInfo::new(stack_entries, detail));\n        self.error_info = None;\n        self', 'setting the debug info drops the error info'),
+        ('richbuild', 'tonic-types/src/richer_error/std_messages/help.rs', r'(pub fn with_link[\s\S]*?)description: description\.into\(\),\n                url: url\.into\(\),', r'\1description: url.into(),\n                url: description.into(),', 'a help link is built with description and url exchanged'),
         ('richerror', 'tonic-types/src/richer_error/mod.rs', r'code: code as i32,', 'code: 2,', 'embedded google.rpc.Status does not carry the outer code'),
         ('richerror', 'tonic-types/src/richer_error/mod.rs', r'message: message\.to_owned\(\),', 'message: String::new(),', 'embedded google.rpc.Status loses the message'),
         ('richerror', 'tonic-types/src/richer_error/mod.rs', r'conv_details\.push\(debug_info\.into_any\(\)\);', 'let _ = debug_info;', 'a set loses its debug info on the way out'),
